@@ -611,6 +611,11 @@ class CacheWorld(object):
       from . import boot
       boot.write_file(op[1], op[2], int(self.s.now) + 1)
       self.ctx.fault('config_file_rewrite')
+    elif k == 'clockjump':
+      # the wall clock steps forward (NTP step, VM pause) while the other thread may be
+      # between two of its lines
+      self.s.now += op[1]
+      self.ctx.fault('clock_jump')
     elif k == 'setlag':
       if self.settings.MIN_TIMESTAMP_LAG != op[1]:
         # the strategy samples the lag when a pass begins; with the lag changing under
